@@ -260,7 +260,7 @@ def check(chk):
                 chk.ob("FLOW-3", "%s uses the %s helper" % (r, "with-hold" if needs_hold else "no-hold"),
                        helper == ("_get_configured_driver_with_hold" if needs_hold else "_get_configured_driver_no_hold"),
                        u.where(), construct=u.ident, text="helper kind in " + r)
-    chk.expect(n_rule >= 6, "C08: platform rule call sites lost (%d)" % n_rule)
+    chk.expect(n_rule >= 4, "C08: platform rule call sites lost (%d)" % n_rule)
 
     # ------------------------------------------------------------- FLOW-3
     n_set = 0
@@ -378,6 +378,12 @@ def check(chk):
                 else:
                     ok = g.get(cfg_key) is False
                     what = "fallback limit `%s` applies only when %s is not configured" % (rhs, L["cfg"])
+                    if isinstance(n.ast.value, ast.Constant):
+                        # an unconditional full-power fallback is the permission to hold: only with allow_enable
+                        ok = ok and g.get("self.config['allow_enable']") is True
+                        what = "the constant fallback limit %s is granted only by allow_enable (and only without a configured %s)" % (rhs, L["cfg"])
+                    elif rhs.startswith("self.config["):
+                        ok = ok and g.get(rhs) is True
                 chk.ob("DOM-17", "%s: %s" % (name, what), ok, f.where(n.ast), detail="guards %s" % sorted(g.items()),
                        construct=f.ident, text="limit source %s" % rhs)
         # type check for the two duration getters
@@ -466,7 +472,7 @@ def check(chk):
     f = drv.methods["enable"]
     cfg = f.cfg()
     outs = [(n, c) for n, c in cfg.calls_named("_enable_now")] + [(n, c) for n, c in cfg.calls_named("add") if "_enable_now" in src(c)]
-    chk.expect(len(outs) >= 2, "C08: enable() hand-off sites lost")
+    chk.expect(len(outs) >= 1, "C08: enable() hand-off sites lost")
     for n, c in outs:
         g = cfg.guards_at(n.id)
         ok = g.get("hold_power == 0.0") is False or g.get("hold_power == 0") is False or g.get("not hold_power") is False or \
@@ -536,6 +542,7 @@ def battery():
         M("event_pulse bypasses verification", D, "        self.pulse(pulse_ms, pulse_power, max_wait_ms)", "        self._pulse_now(pulse_ms, pulse_power)", ("SIB-2", "FLOW-3")),
         M("event_enable swaps powers", D, "        self.enable(pulse_ms, pulse_power, hold_power)", "        self.enable(pulse_ms, hold_power, pulse_power)", "SIB-2"),
         # twins
+        M("hold limit 1.0 without allow_enable", DRV, "        elif self.config['allow_enable']:\n            max_hold_power = 1.0", "        elif self.config['allow_enable'] or not self.config['default_hold_power']:\n            max_hold_power = 1.0", "DOM-17"),
         M("twin: 0 <= x <= 1 style guard", D, "if pulse_power and (pulse_power < 0 or pulse_power > 1):", "if pulse_power and (pulse_power > 1 or pulse_power < 0):", None),
         M("twin: keyword construction", D, "self.hw_driver.timed_enable(PulseSettings(pulse_power, pulse_duration),\n                                    HoldSettings(hold_power, hold_duration))", "self.hw_driver.timed_enable(PulseSettings(power=pulse_power, duration=pulse_duration),\n                                    HoldSettings(power=hold_power, duration=hold_duration))", None),
         M("twin: delay before enable already", D, "self.info_log(\"Enabling Driver for %sms (%s pulse_power)\", pulse_ms, pulse_power)", "self.debug_log(\"Enabling Driver for %sms (%s pulse_power)\", pulse_ms, pulse_power)", None),
